@@ -614,6 +614,21 @@ func (x *Exec) nativeCall(st *State, fr *Frame, ci calleeInfo, pos token.Pos) (V
 		mt := a[0].Typ.Underlying().(*types.Map)
 		st.mapDelete(a[0].T(), st.strFn("canon", a[1].T()), mt)
 		return Val{}, true
+	case "fmt.Sprintf", "fmt.Errorf":
+		// result is a function of the format and the boxed arguments (up to 4); Errorf results are non-nil
+		if l, ok := a[1].C[2].IsIntLit(); ok && l <= 4 {
+			args := []*T{a[0].T()}
+			for i := int64(0); i < l; i++ {
+				args = append(args, st.loadElem(a[1].C[0], Add(a[1].C[1], IntLit(i)), types.NewInterfaceType(nil, nil)).T())
+			}
+			if ci.key == "fmt.Sprintf" {
+				r := App(fmt.Sprintf("sprintf_%d", l), SStr, args...)
+				return strVal(r), true
+			}
+			r := App(fmt.Sprintf("errorf_%d", l), SInt, args...)
+			st.Assume(Ne(r, IntLit(0)))
+			return Val{Typ: ci.sig.Results().At(0).Type(), C: []*T{r}}, true
+		}
 	case "math.Log2":
 		if r, ok := litRat(a[0].T()); ok {
 			f, _ := r.Float64()
